@@ -1,5 +1,7 @@
 import Glas.Model.TextCmd
 import Glas.Model.SyntaxCmd
+import Glas.Model.ScopeCmd
+import Glas.Model.PrattCmd
 /-! The executable model behind a one-line-in, one-line-out protocol (tab-separated fields). -/
 open Glas
 
@@ -10,7 +12,13 @@ def dispatch (line : String) : String :=
   | none =>
     match SyntaxCmd.run args with
     | some r => r
-    | none => "bad-op"
+    | none =>
+      match ScopeCmd.run args with
+      | some r => r
+      | none =>
+        match PrattCmd.run args with
+        | some r => r
+        | none => "bad-op"
 
 partial def loop (h : IO.FS.Stream) (out : IO.FS.Stream) : IO Unit := do
   let line ← h.getLine
